@@ -311,6 +311,16 @@ func runC06(c c06Case) error {
 				return fmt.Errorf("%s: Host header %q did not set the request host (%q)", what, kv.V[0], first.Host)
 			}
 		}
+		// ... and nothing else: no header the target does not have (cookies of earlier responses, a referer, ...)
+		for k, vs := range first.Header {
+			own := k == "X-Vegeta-Seq" || k == "X-Vegeta-Attack"
+			for _, kv := range ex.Headers {
+				own = own || kv.K == k
+			}
+			if !own {
+				return fmt.Errorf("%s: the request reached the transport with a header the target does not have: %q = %q", what, k, vs)
+			}
+		}
 		if got := first.Header["X-Vegeta-Seq"]; len(got) != 1 || got[0] != strconv.FormatUint(res.Seq, 10) {
 			return fmt.Errorf("%s: X-Vegeta-Seq header %q does not match the result's seq %d", what, got, res.Seq)
 		}
@@ -543,6 +553,14 @@ func c06Gen(t *rapid.T) c06Case {
 			maxLen = len(ex.Final.Body)
 		}
 		c.Exchanges = append(c.Exchanges, ex)
+	}
+	if len(c.Exchanges) >= 2 && rapid.IntRange(0, 4).Draw(t, "session") == 0 {
+		// the first response sets cookies, the later targets name the same URL: a load generator keeps no session -
+		// what reaches the transport is the target's own header set, every time
+		c.Exchanges[0].Final.Headers = append(c.Exchanges[0].Final.Headers, c06KV{K: "Set-Cookie", V: []string{"sid=abc123; Path=/", "theme=dark"}})
+		for i := 1; i < len(c.Exchanges); i++ {
+			c.Exchanges[i].URL = c.Exchanges[0].URL
+		}
 	}
 	c.MaxBody = rapid.SampledFrom([]int64{-1, -1, 0, 1, int64(maxLen) - 1, int64(maxLen), int64(maxLen) + 1, 1 << 30, 100, 65535, 65536, 65537, math.MaxInt64, math.MaxInt64 - 1, math.MaxInt32}).Draw(t, "maxbody")
 	if c.MaxBody < -1 {
